@@ -65,6 +65,10 @@ func genNDCfg(rc *RunCtx) NDCfg {
 			add("auth-http-address", "127.0.0.1:4181")
 		}
 		maybe("https-address", "", "127.0.0.1:4152")
+	} else if rc.Prop == "C04" {
+		maybe("msg-timeout", "1s", "7s", "1m30s")
+		maybe("max-msg-timeout", "2m0s", "15m0s")
+		maybe("max-req-timeout", "3s", "1m0s")
 	} else {
 		maybe("max-msg-size", "16", "300", "5000")
 		maybe("max-body-size", "256", "1000", "20000")
@@ -180,7 +184,8 @@ func nsqdAppWorld(rc *RunCtx) {
 	needCert := false
 	other := map[string]string{"max-msg-size": "77", "max-body-size": "777", "max-rdy-count": "3", "max-req-timeout": "7s", "max-heartbeat-interval": "7s",
 		"max-output-buffer-size": "777", "max-output-buffer-timeout": "700ms", "max-msg-timeout": "7s", "max-deflate-level": "2",
-		"tls-required": "false", "tls-client-auth-policy": "", "auth-http-address": "127.0.0.1:9", "https-address": "127.0.0.1:4159"}
+		"tls-required": "false", "tls-client-auth-policy": "", "auth-http-address": "127.0.0.1:9", "https-address": "127.0.0.1:4159",
+		"msg-timeout": "13s"}
 	fileLine := func(name, val string) string {
 		key := strings.ReplaceAll(name, "-", "_")
 		switch name {
@@ -252,9 +257,12 @@ func nsqdAppWorld(rc *RunCtx) {
 	rc.Defer(func() { prg.Stop(); synctest.Wait() })
 	synctest.Wait()
 
-	if rc.Prop == "C11" {
+	switch rc.Prop {
+	case "C11":
 		w.probePolicy()
-	} else {
+	case "C04":
+		w.probeTimeouts()
+	default:
 		w.probeLimits()
 	}
 	rc.Res.Ops = 1
@@ -417,4 +425,78 @@ func ndTrunc(b []byte, n int) []byte {
 		return b[:n]
 	}
 	return b
+}
+
+// probeTimeouts (C04): the configured msg-timeout and max-req-timeout govern redelivery - never early, and
+// not later than a few scan intervals.
+func (w *ndWorld) probeTimeouts() {
+	cfg, rc := w.cfg, w.rc
+	msgT := ndDur(cfg.get("msg-timeout", "1m0s"))
+	maxReq := ndDur(cfg.get("max-req-timeout", "1h0m0s"))
+	scan := ndDur(cfg.get("queue-scan-interval", "100ms"))
+	// (a channel that has just been created is first visited after the next refresh of the scan loop's
+	// channel list: queue-scan-refresh-interval, 5 s)
+	slack := 3*scan + 5*time.Second + 200*time.Millisecond
+	co, err := dialV2(rc, "cons", "127.0.0.1:4150", "  V2")
+	if err != nil {
+		w.violate("C04", "refused", "connect: %v", err)
+		return
+	}
+	defer func() { co.Close(); synctest.Wait() }()
+	// unbuffered output: a frame is received the instant it is sent
+	if _, err := co.Identify(map[string]interface{}{"client_id": "cons", "feature_negotiation": true, "output_buffer_size": -1}, nil); err != nil {
+		w.violate("C04", "refused", "IDENTIFY: %v", err)
+		return
+	}
+	co.Start()
+	co.Cmd("SUB t0 c0", nil)
+	co.WaitFrame(10*time.Second, isNonMsg)
+	co.Cmd("RDY 1", nil)
+	pub, err := dialV2(rc, "pub", "127.0.0.1:4150", "  V2")
+	if err != nil {
+		return
+	}
+	defer pub.Close()
+	pub.Start()
+	pub.Cmd("PUB t0", []byte("timeout-probe"))
+	pub.WaitFrame(10*time.Second, isNonMsg)
+	isMsg := func(f Frame) bool { return f.Type == frameMessage }
+	f, ok := co.WaitFrame(10*time.Second, isMsg)
+	if !ok {
+		w.violate("C04", "not-delivered", "the first delivery did not arrive")
+		return
+	}
+	m1, _ := decodeWireMsg(f.Data)
+	t0 := time.Now()
+	rc.Probe("timeout_probes")
+	// unanswered: back after msg-timeout, not before
+	if f2, early := co.WaitFrame(msgT-time.Millisecond, isMsg); early {
+		m2, _ := decodeWireMsg(f2.Data)
+		w.violate("C04", "timeout-early", "msg-timeout %v: the unanswered message came back after %v (attempts %d)", msgT, time.Since(t0), m2.Attempts)
+		return
+	}
+	f2, ok := co.WaitFrame(slack+2*time.Millisecond, isMsg)
+	if !ok {
+		w.violate("C04", "timeout-late", "msg-timeout %v (scan interval %v): the unanswered message has not come back %v after its delivery", msgT, scan, time.Since(t0))
+		return
+	}
+	m2, _ := decodeWireMsg(f2.Data)
+	if m2.ID != m1.ID || m2.Attempts != 2 {
+		w.violate("C04", "timeout-late", "expected the second delivery of %s, got %s attempts %d", m1.ID, m2.ID, m2.Attempts)
+		return
+	}
+	// requeued with a delay beyond max-req-timeout: back after max-req-timeout, not before, not much later
+	if maxReq <= 2*time.Minute {
+		rc.Probe("timeout_probes")
+		co.Cmd(fmt.Sprintf("REQ %s %d", m2.ID, (maxReq + time.Hour).Milliseconds()), nil)
+		t1 := time.Now()
+		if f3, early := co.WaitFrame(maxReq-time.Millisecond, isMsg); early {
+			m3, _ := decodeWireMsg(f3.Data)
+			w.violate("C04", "requeue-early", "max-req-timeout %v: a message requeued with a longer delay came back after %v (attempts %d)", maxReq, time.Since(t1), m3.Attempts)
+			return
+		}
+		if _, ok := co.WaitFrame(slack+2*time.Millisecond, isMsg); !ok {
+			w.violate("C04", "delayed-message-late", "max-req-timeout %v (scan interval %v): a message requeued with a longer delay has not come back %v after the REQ", maxReq, scan, time.Since(t1))
+		}
+	}
 }
